@@ -259,6 +259,13 @@ def run(ctx):
             for F in ([0] * len(nseq), [0.3] * len(nseq), ([0.5, 0, 0.2][:len(nseq)])):
                 for thr in ((1e-2, 1) if cname != 'mix0_4' else (1,)):
                     cases.append({'kind': 'correction', 'nseq': nseq, 'nsub': nsub, 'F': list(F), 'sim_threshold': thr, 'coverage': cname, 'seed': ctx.seed})
+    if not ctx.quick:
+        for nseq, nsub in (((6,), (2,)), ((6,), (6,)), ((10,), (6,)), ((12,), (4,)), ((6, 4), (4, 2)), ((2, 6), (2, 4)), ((2, 4, 2), (2, 2, 2))):
+            for cname in covnames:
+                for F in ([0] * len(nseq), [0.3] * len(nseq), ([0.5, 0, 0.2][:len(nseq)]), ([0, 0.9, 0.1][:len(nseq)])):
+                    for thr in (1e-2, 1):
+                        cases.append({'kind': 'correction', 'nseq': nseq, 'nsub': nsub, 'F': list(F), 'sim_threshold': thr, 'coverage': cname, 'seed': ctx.seed})
+        ctx.note('thorough: wrapper lattice extended to 7 more (n_sequenced, n_subsampled) shapes x every coverage distribution x 4 inbreeding vectors x 2 thresholds')
     explore.pmap(ctx, _dispatch, cases, chunk=1)
     ctx.tick(evaluations=len(cases))
     for c in (cases[0], cases[len(cases) // 2], cases[-1]):
